@@ -289,7 +289,7 @@ def _has_zero(tree):
 
 # ---------------------------------------------------------------- payload operations counted one by one
 OPS = ["iadd", "iadd", "ilshift", "ilshift", "imul", "add", "radd", "mul", "rmul", "sub", "isub", "iadd_box",
-       "ilshift_box", "mul_box"]
+       "ilshift_box", "mul_box", "mul_elem", "mul_elem", "add_elem", "mul_elem_box", "mul_elem_scalar", "iadd_elem"]
 VALS = [0, 0, 1, 2, 3, -1, -2, -3, 5, 0.5, -0.5]
 
 
@@ -311,6 +311,12 @@ def check_ops(case, rec):
     K.reset_metrics()
     boxes = [Payload(v) for v in case["init"]]
     vals = list(case["init"])
+    # the same boxes as the payloads of a fiber: fib[i] is a whole element (coordinate and payload), the form a
+    # kernel uses when it does not unpack what an iterator hands out
+    from fibertree import Fiber
+    fib = Fiber(list(range(len(boxes))), boxes)
+    if any(p is not b for p, b in zip(fib.payloads, boxes)):
+        raise RuntimeError("the fiber did not keep the boxes it was given")
     own = {"payload_add": 0, "payload_mul": 0, "payload_update": 0}
     d = tempfile.mkdtemp(prefix="vf-c15ops-")
     try:
@@ -356,6 +362,25 @@ def check_ops(case, rec):
                 elif op == "rmul":
                     own["payload_mul"] += 1
                     r = v * boxes[i]
+                elif op == "mul_elem":
+                    own["payload_mul"] += 1
+                    r = fib[i] * fib[j]
+                elif op == "mul_elem_box":
+                    own["payload_mul"] += 1
+                    r = fib[i] * boxes[j]
+                elif op == "mul_elem_scalar":
+                    own["payload_mul"] += 1
+                    r = fib[i] * v
+                elif op == "add_elem":
+                    own["payload_add"] += 1
+                    r = fib[i] + fib[j]
+                elif op == "iadd_elem":
+                    own["payload_update"] += 1
+                    own["payload_add"] += vals[i] != 0
+                    rhs = vals[j]
+                    e = fib[i]
+                    e += fib[j]
+                    vals[i] = vals[i] + rhs
                 elif op == "sub":
                     r = boxes[i] - v
                 elif op == "isub":
